@@ -6,6 +6,8 @@ import (
 	"bufio"
 	"fmt"
 	"os"
+	"strconv"
+	"time"
 )
 
 type handler func(*Sexp) string
@@ -19,6 +21,13 @@ func safeHandle(h handler, s *Sexp) (out string) {
 		}
 	}()
 	return h(s)
+}
+
+func caseTimeout() time.Duration {
+	if v, err := strconv.Atoi(os.Getenv("VERIF_CASE_TIMEOUT_MS")); err == nil && v > 0 {
+		return time.Duration(v) * time.Millisecond
+	}
+	return 10 * time.Second
 }
 
 func main() {
@@ -41,7 +50,19 @@ func main() {
 			if perr != nil {
 				fmt.Fprintln(out, "bad-parse")
 			} else {
-				fmt.Fprintln(out, safeHandle(h, s))
+				// watchdog: a case that does not finish (a corrupted structure that is walked
+				// forever, a lost wake-up) is reported as HANG and the process ends; the
+				// runner restarts it after that case.
+				done := make(chan string, 1)
+				go func() { done <- safeHandle(h, s) }()
+				select {
+				case r := <-done:
+					fmt.Fprintln(out, r)
+				case <-time.After(caseTimeout()):
+					fmt.Fprintln(out, "HANG")
+					out.Flush()
+					os.Exit(3)
+				}
 			}
 			out.Flush()
 		}
